@@ -326,7 +326,7 @@ fn request(ar: &mut Arena, cur: Acc, code: u64, ty: u64, a: usize, b: usize) -> 
             10 => vres(s.split_at(a), |x| ar.slice(x.1)),
             11 => Out::New(ar.arr(Box::new(VolatileArrayRef::<u8, ()>::from(*s)))),
             15 => {
-                if (a as u128) + (b as u128) > s.len() as u128 {
+                if (a as u128) + (b as u128) > s.len() as u128 || b > isize::MAX as usize {
                     return Out::Err(7);
                 }
                 let base = s.ptr_guard().as_ptr() as usize;
@@ -623,6 +623,12 @@ fn fake_parents() -> Vec<(u64, u64)> {
             }
         }
     }
+    // ranges longer than isize::MAX (no Rust object is, but the accessors must still not wrap):
+    // almost the whole address space
+    for (b, k) in [(1u64, 1u64), (1, 2), (2, 1), (8, 8), (16, 1), (4096, 4096), (1 << 62, 3), (1 << 63, 1)] {
+        v.push((b, u64::MAX - b - k + 1));
+    }
+    v.push((4096, (1 << 63) + 7));
     v
 }
 
